@@ -128,6 +128,17 @@ CHECKS = {
         note=TB + "C09 (partial): leapfrog volume preservation and the Gaussian proposal density formula are cited mathematics; invariance of the posterior follows from detailed balance given C03/C04 weights; statistical invariance tests are not part of the quick tier.",
         technique="Lean 4 + Mathlib proof of the kernel cores + differential correspondence with scripted randomness",
         design="§3 C09"),
+    "C10": dict(
+        text="Lean theorems over finite-support models (exact expectations, any field): importance weights are unbiased; extend/init is properly "
+             "weighting; rejuvenation keeps weights; (adaptive) multinomial resampling preserves every estimate-weighted average; and the full "
+             "induction: for every pipeline of extend/resample/rejuvenate steps, every N>=1 and every test function, E[acc*(1/N) sum w_i phi(x_i)] "
+             "is the pulled-back target integral - with phi=1, E[exp(log_marginal_likelihood)] = evidence. Tie: init/extend/resample/rejuvenate "
+             "pipelines and rejuvenation_smc on the real code: per-particle log weights vs scipy densities minus proposal densities, flat and "
+             "nested address layouts, default and custom proposals, N in {1..8}; seeded mean of exp(lml) vs exact evidence; Lean exact run of a "
+             "tiny system.",
+        note=TB + "C10: the theorem is for multinomial resampling and finite support; systematic resampling's unbiasedness is C12's count formula; rejuvenation kernels are assumed normalised (their invariance is C09).",
+        technique="Lean 4 + Mathlib proof (finite-distribution monad, induction over pipelines) + differential correspondence",
+        design="§3 C10"),
 }
 
 NOT_YET = "check not built yet in this session (planned, see DESIGN.md §3/§6); not claimed"
